@@ -8,7 +8,10 @@ RULE = ("D <accessor> <hex>: every item tree with at most 3 (quick) / 4 (thoroug
         "simple, f16/f32/f64, definite/indefinite array and map, tag}, serialised with every head-width assignment that is uniform per "
         "tree (minimal, 1, 2, 4, 8 bytes) plus random mixed widths, followed by a junk suffix, read through each of the 26 accessors; "
         "grammar-generated deep trees likewise. S= is spec_acc (Spec/Acc.v) on the tree the reference parser finds. DT <type> <hex>: "
-        "typed decoding of re-framed encodings (random head widths, indefinite containers) of registry values; Type confusion: encodings of values of other registry types and byte/text strings of lengths around 4/16/24 read as each type. PFX: every strict "
+        "typed decoding of re-framed encodings (random head widths, indefinite containers) of registry values, and of shape-edited "
+        "well-formed items derived from registry values (wider heads, indefinite arrays/maps, chunked strings, surplus/missing/replaced "
+        "elements, duplicate map keys, extra tags, narrower floats, null/undefined); S= is spec_ty_lenient (Spec/TypeSem.v, the specification: open records) on the tree the "
+        "reference parser finds whenever the input is one well-formed item plus a suffix (theorem C04_types). Type confusion: encodings of values of other registry types and byte/text strings of lengths around 4/16/24 read as each type. PFX: every strict "
         "prefix of every value's encoding must fail with end of input. Non-trivial: the item is longer than one byte.")
 ASSUMPTIONS = ["pointer ranges of borrowed results are checked by the harness for the four borrowed targets (&str, &ByteSlice, &CStr, &Path)",
                "narrower-float-through-wider-accessor values are checked under C12"]
@@ -45,8 +48,17 @@ def generate(tier, rng):
             e1, e2 = tg.encode(d, v, rng), tg.encode(d, v)
             # a re-framed encoding of a known value: that value at the end of the item, or an error — never something else
             exp = "" if key == "systemtime" and v[1] == 1 else " =%s@%d" % (tg.canon_show(d, v), len(e1))
-            out.append("DT %s %s%s" % (key, hexs(e1 + b"\x01"), exp if key not in tg.LOSSY else ""))
-            out.append("DT %s %s%s" % (key, hexs(e2), (" =%s@%d" % (tg.canon_show(d, v), len(e2))) if exp and key not in tg.LOSSY else ""))
+            out.append("DT %s %s%s" % (key, hexs(e1 + b"\x01"), exp if exp and key not in tg.LOSSY else " =?"))
+            out.append("DT %s %s%s" % (key, hexs(e2), (" =%s@%d" % (tg.canon_show(d, v), len(e2))) if exp and key not in tg.LOSSY else " =?"))
+        # every well-formed encoding of an item, not only the encoder's: non-preferred heads, indefinite containers, chunked
+        # strings, surplus / missing / replaced elements, extra tags, wrong shapes.  S= is Spec/TypeSem.v spec_ty on the tree
+        # the reference parser finds (theorem C04_types): exactly that value at the end of the item, or an error.
+        for _ in range(60 if big else 12):
+            v = tg.rust_order(d, tg.gen_value(d, rng))
+            out.append("DT %s %s =?" % (key, hexs(tg.shape_encode(d, v, rng) + rng.choice([b"", b"\x01", b"\xff\x00"]))))
+        for _ in range(12 if big else 3):
+            v = tg.rust_order(d, tg.gen_value(d, rng))
+            out.append("DT %s %s =?" % (key, hexs(tg.shape_encode(d, v, rng, 0.0))))    # same value, non-preferred form only
         if key in tg.REGISTRY:
             for _ in range(10 if big else 2):
                 v = tg.rust_order(d, tg.gen_value(d, rng))
@@ -63,7 +75,7 @@ def generate(tier, rng):
         pool.append(head(3, n) + b"a" * n)
     for key in tg.REGISTRY + tg.BORROWED:
         for e in rng.sample(pool, 40 if big else 12) + pool[-24:]:
-            out.append("DT %s %s" % (key, hexs(e)))
+            out.append("DT %s %s =?" % (key, hexs(e)))
     return out
 
 def nontrivial(line, impl):
@@ -84,7 +96,8 @@ def _scalarish(d):
     if k == "arr": return _scalarish(d[2])
     if k == "tup": return all(_scalarish(x) for x in d[1])
     if k == "enum": return all(_scalarish(x) for x in d[1])
-    if k == "bound": return _scalarish(d[1])
+    # Bound is not in this list: Unbounded ignores its body ([2, any item], open records), so re-encoding normalises it;
+    # Bound is decided exactly by the S= expectation (Spec/TypeSem.v)
     if k == "tagged": return _scalarish(d[2])
     return False
 
